@@ -54,6 +54,8 @@ APPLY = {
 
 META["explanation"] += " " + '(SIGN-kind) every read of Value.Number.Integer that is an operand of < <= > >= or converted to double sits where the kind of its owner cannot be NaturalNumber (a switch arm without that label, or a dominating Type test); in const members the mirror clause holds for Number.Natural converted to double and IntegerNumber. (ZERO-after) after `while (v != 0)` without a break, v is not tested (comparison or & mask) before it is assigned again.'
 
+META["explanation"] += " " + 'Taken over unchanged from other modules because a seeded change to this property was reported by them (rules.common.shared): PR-chain from C02.'
+
 def doc_groups():
     p = os.path.join(REPO, "Documentation", "Template.md")
     if not os.path.exists(p):
@@ -165,7 +167,7 @@ class NonZero(dataflow.Client):
         return st
 
 
-def run(ctx):
+def _run_own(ctx):
     m = ctx.pattern()
     rules = []
     T = "Qentem::TemplateCore::"
@@ -966,3 +968,11 @@ def rule_signed_read(ctx, m):
                   "`%s` reads Number.Natural (%s) where %s may be an IntegerNumber: a negative integer is taken for a natural near 2^64 (-3 == -3.0 is false)")
                  % (f.text(par.get(x, x))[:50], how, "this object" if owner == "this" else owner), f.loc(x))
     return r
+
+
+def run(ctx):
+    rules_ = list(_run_own(ctx) or [])
+    from rules.common import shared
+    have = set(r_.rid for r_ in rules_)
+    rules_ += [r_ for r_ in shared(ctx, 'C02', ['PR-chain']) if r_.rid not in have]
+    return rules_
